@@ -488,6 +488,9 @@ impl Reg {
     /// Measure specified qubits into classical register.
     /// Wavefunction of quantum register will collapse after measurement.
     pub fn measure_mask(&mut self, mask: N) -> super::CReg {
+        #[cfg(qvnt_verif)]
+        use crate::verif::thread_rng;
+
         let mask = mask & self.q_mask;
         if mask == 0 {
             return super::CReg::new(self.q_num);
@@ -513,6 +516,9 @@ impl Reg {
     pub fn sample_all(&self, count: N) -> Vec<N> {
         use std::cmp::Ordering;
 
+        #[cfg(qvnt_verif)]
+        use crate::verif as rand;
+
         let p = self.get_probabilities();
         let c = count as R;
         let c_sqrt = c.sqrt();
@@ -527,6 +533,8 @@ impl Reg {
                         p.sqrt() * rnd
                     })
                     .collect::<Vec<R>>();
+                #[cfg(qvnt_verif)]
+                crate::verif::record_normals(&n);
 
                 let n_sum = n.iter().sum::<R>();
 
@@ -549,6 +557,8 @@ impl Reg {
                         p.sqrt() * rnd
                     })
                     .collect::<Vec<R>>();
+                #[cfg(qvnt_verif)]
+                crate::verif::record_normals(&n);
 
                 let n_sum = n.par_iter().sum::<R>();
 
@@ -597,6 +607,22 @@ impl Reg {
 impl Default for Reg {
     fn default() -> Self {
         Self::new(0)
+    }
+}
+
+#[cfg(qvnt_verif)]
+impl Reg {
+    /// Verification hook: the raw amplitude buffer, padding included.
+    pub fn verif_raw(&self) -> &[C] {
+        &self.psi
+    }
+
+    /// Verification hook: a register over a given raw amplitude buffer.
+    pub fn verif_from_raw(q_num: N, psi: Vec<C>) -> Self {
+        let mut reg = Self::new(q_num);
+        assert_eq!(reg.psi.len(), psi.len());
+        reg.psi = psi;
+        reg
     }
 }
 
